@@ -1,0 +1,11 @@
+//go:build verif
+
+// Verification contracts (property C36, addition; comment-only, read by /verif/govc).
+// The row filter looks at EVERY record of every scanned segment: the record loop and the segment loop of handleSelect
+// are left only when their sequence is exhausted or by returning (limit reached, error) - a filtered-out record never
+// ends the scan of its segment (records inside a segment are not ordered by timestamp).
+
+package server
+
+//@ func (s *Server) handleSelect
+//@   no_early_exit [C36.select_scans_every_record_of_a_segment] record ;; [C36.select_scans_every_candidate_segment] segment
